@@ -83,6 +83,11 @@ func buildQuery(o *Obligation, negate bool, withModel bool) string {
 			fmt.Fprintf(&b, "(assert %s)\n", a)
 		}
 	}
+	if !o.NoFAxioms {
+		for _, a := range c.faxioms {
+			fmt.Fprintf(&b, "(assert %s)\n", a)
+		}
+	}
 	for _, g := range c.globalFacts() {
 		fmt.Fprintf(&b, "(assert %s)\n", g)
 	}
